@@ -38,11 +38,37 @@ type placement string
 
 const (
 	foreign placement = "foreign" // controller reference to another owner's UID
+	// foreignOwnPlain: controller reference to another owner's UID plus a plain
+	// (controller: false) owner reference to the acting owner. Being an owner is not being the controller.
+	foreignOwnPlain placement = "foreign+plain-ref-to-acting-owner"
+	// foreignExtraPlain: controller reference to another owner's UID plus unrelated plain owner references.
+	foreignExtraPlain placement = "foreign+unrelated-plain-refs"
 	none    placement = "none"    // no controller reference
 	own     placement = "own"     // controller reference to the acting owner
 )
 
-var placements = []placement{foreign, foreign, foreign, none, own}
+var placements = []placement{foreign, foreign, foreignOwnPlain, foreignOwnPlain, foreignExtraPlain, none, own}
+
+// isForeign: the object is controlled by another owner's UID (whatever other references it carries).
+func (p placement) isForeign() bool {
+	return p == foreign || p == foreignOwnPlain || p == foreignExtraPlain
+}
+
+func plainCopy(r map[string]any) map[string]any {
+	c := map[string]any{}
+	for k, v := range r {
+		if k != "controller" && k != "blockOwnerDeletion" {
+			c[k] = v
+		}
+	}
+	c["controller"] = false
+	return c
+}
+
+var unrelatedPlainRefs = []any{
+	map[string]any{"apiVersion": "v1", "kind": "ConfigMap", "name": "unrelated-a", "uid": "uid-unrelated-plain-a"},
+	map[string]any{"apiVersion": "v1", "kind": "ConfigMap", "name": "unrelated-b", "uid": "uid-unrelated-plain-b", "controller": false},
+}
 
 const (
 	envActor  = "env"
@@ -112,6 +138,13 @@ func setController(o verifsim.Obj, p placement, ownRef, foreignRef map[string]an
 	switch p {
 	case foreign:
 		m["ownerReferences"] = []any{foreignRef}
+	case foreignOwnPlain:
+		if ownRef == nil {
+			panic("c02: foreignOwnPlain placement needs the acting owner's reference")
+		}
+		m["ownerReferences"] = []any{plainCopy(ownRef), foreignRef}
+	case foreignExtraPlain:
+		m["ownerReferences"] = append([]any{unrelatedPlainRefs[0], foreignRef}, unrelatedPlainRefs[1])
 	case own:
 		m["ownerReferences"] = []any{ownRef}
 	default:
@@ -250,8 +283,8 @@ func judge(w *world, e expectation, runs int, fail func(string, ...any)) (wrote 
 	writes := w.siteWrites(e.target, from)
 	wrote = len(writes) > 0
 	cur := state[e.target]
-	switch e.place {
-	case foreign:
+	switch {
+	case e.place.isForeign():
 		if _, ok := before[e.target]; !ok {
 			fail("%s: harness error: the foreign-controlled target is not in the store before the run", ctx)
 		}
@@ -263,7 +296,7 @@ func judge(w *world, e expectation, runs int, fail func(string, ...any)) (wrote 
 		if e.extra != nil {
 			e.extra(w, func(f string, a ...any) { fail(ctx+": "+f, a...) })
 		}
-	case none:
+	case e.place == none:
 		if e.untouchedOnNone {
 			if wrote {
 				fail("%s: an uncontrolled object the site is documented to refuse (legacy Opaque secret, CRD of a deleted XRD) was written:%s", ctx, describeWrites(writes))
@@ -279,7 +312,7 @@ func judge(w *world, e expectation, runs int, fail func(string, ...any)) (wrote 
 		if e.adopts && (cur == nil || verifsim.ControllerUID(cur) != w.ownerUID) {
 			fail("%s: with no controller reference the target should have been adopted by %s, controller is %q (errors %v)", ctx, w.ownerUID, verifsim.ControllerUID(cur), errs)
 		}
-	case own:
+	case e.place == own:
 		if e.mustWrite && !wrote {
 			fail("%s: VACUOUS: the site did not update the target its own owner controls (errors %v, events %v)", ctx, errs, w.rec.Events())
 		}
@@ -310,7 +343,7 @@ func runCase(rec *verifkit.Recorder, build func(p placement) (*world, expectatio
 	}
 	w, e := build(p)
 	judge(w, e, runs, fail)
-	if p == foreign {
+	if p.isForeign() {
 		if e.surface {
 			rec.Label("foreign:surfacing-demanded")
 		} else {
